@@ -53,15 +53,15 @@ Qed.
 (* after authentication, an unparsable address header or a chunk that fails authentication is
    drained: the server closes only after the client has closed *)
 Lemma post_auth_invalid_drains_lemma e ci k evs code c w :
-  after_auth e ci k = (evs, code, c, w) ->
+  after_auth e ci k = (evs, code, c, w) -> ci_client_reset ci = false ->
   code = st_read_address \/ code = st_relay_client -> w = AtClientFin.
 Proof.
   unfold after_auth. destruct (decode_stream e k (ci_bytes ci)) as [pt fin].
-  destruct (read_addr pt) as [ab payload| |]; try (intros H; inversion H; reflexivity).
-  destruct (decode_addr ab) as [a|]; try (intros H; inversion H; reflexivity).
+  destruct (read_addr pt) as [ab payload| |]; try (intros H _; inversion H; reflexivity).
+  destruct (decode_addr ab) as [a|]; try (intros H _; inversion H; reflexivity).
   destruct (dial ci a) as [i|stc] eqn:D.
-  - destruct fin, (ci_target_reset ci); intros H [Hc|Hc]; inversion H; subst; try reflexivity; discriminate.
-  - intros H [Hc|Hc]; inversion H; subst; exfalso; revert D; apply dial_status_codes; [left|right]; reflexivity.
+  - intros H R; rewrite R in H. destruct fin, (ci_target_reset ci); revert H; intros H [Hc|Hc]; inversion H; subst; try reflexivity; discriminate.
+  - intros H _ [Hc|Hc]; inversion H; subst; exfalso; revert D; apply dial_status_codes; [left|right]; reflexivity.
 Qed.
 
 Lemma count_app p l1 l2 : count p (l1 ++ l2) = (count p l1 + count p l2)%nat.
@@ -168,7 +168,8 @@ Lemma handle_honest_relay_lemma e st ci st' id el salt a payload i :
   decode_addr (encode_addr a) = Some a ->
   dial ci a = inl i ->
   handle e st ci = (st', Ok [EAuth id; EDial a i; EToTarget payload; ETargetFin; EToClient (ci_target_out ci);
-                            EClosed (if ci_target_reset ci then st_relay_target else st_ok) (zlen (ci_bytes ci)) (zlen payload) (zlen (ci_target_out ci)); EClose AfterRelay]).
+                            EClosed (if ci_client_reset ci then st_relay_client else if ci_target_reset ci then st_relay_target else st_ok)
+                                    (zlen (ci_bytes ci)) (zlen payload) (zlen (ci_target_out ci)); EClose AfterRelay]).
 Proof.
   intros A D Hd Da Dial. unfold handle. rewrite A. unfold after_auth. rewrite D.
   destruct atyp_distinct_lemma as (N1 & N2 & N3).
@@ -181,7 +182,7 @@ Inductive outcome_class :=
 | OAuthFailed (s : N)          (* authentication refused with this status *)
 | OBadAddress                  (* authenticated; the address header is missing, truncated or of an unknown type *)
 | ODialFailed (s : N)          (* authenticated, address read; the policy or the connect failed with this status *)
-| ORelayBroken                 (* relaying started; a later chunk from the client failed authentication *)
+| ORelayBroken                 (* relaying started; a later chunk from the client failed authentication, or the client ended with a reset *)
 | OTargetBroke                 (* relayed; the upload ended cleanly, the target ended with a reset *)
 | OCompleted.                  (* relayed to the end of both streams *)
 Definition classify (e : env) (st : astate) (ci : conn_in) : option outcome_class :=
@@ -199,7 +200,8 @@ Definition classify (e : env) (st : astate) (ci : conn_in) : option outcome_clas
                       | inr s => Some (ODialFailed s)
                       | inl _ => match fin with
                                  | DAuthFail => Some ORelayBroken
-                                 | _ => Some (if ci_target_reset ci then OTargetBroke else OCompleted)
+                                 | _ => Some (if ci_client_reset ci then ORelayBroken
+                                              else if ci_target_reset ci then OTargetBroke else OCompleted)
                                  end
                       end
           end
@@ -227,7 +229,7 @@ Proof.
     destruct (read_addr p) as [ab payload| |].
     + destruct (decode_addr ab) as [a|].
       * destruct (dial ci a) as [i|s].
-        -- destruct f, (ci_target_reset ci); intros H; injection H as <- <-;
+        -- destruct f, (ci_client_reset ci), (ci_target_reset ci); intros H; injection H as <- <-;
              (eexists; split; [reflexivity|]; cbn [status_of_class]; closed_shape).
         -- intros H; injection H as <- <-. eexists; split; [reflexivity|]. cbn [status_of_class]. closed_shape.
       * intros H; injection H as <- <-. eexists; split; [reflexivity|]. cbn [status_of_class]. closed_shape.
